@@ -11,6 +11,8 @@
 //   n run count of the continuation, v what it saw ("none","result","error","local"), got the
 //   payload marker of the element / error text it was completed with, passed = iqReceived signals
 //   of this step (response IQs the tracker did not consume), up = isConnected().
+// {"a":"Attempt","r":"authfail|bindfail|userabort|precut|abandon"}: a connection attempt that ends before a session
+// exists (scripted over the real socket, see SrvScript::attempt), or disconnectFromServer() without a connection.
 // Send lines also carry wk ("own": the stanza went out with the caller's id, "new": with another one,
 // "none": without an id) and clash (the id written is empty or that of a request still pending);
 // replies for request i carry the id request i's stanza was really written with.
@@ -188,6 +190,9 @@ void runBehaviour(Ctx &ctx, LoopPeer &peer, const QString &caseId, const QJsonAr
             SrvScript::Kind k;
             ok = SrvScript::kindFrom(s["k"].toString(), k) && !e.c->isConnected() && e.srv->connect(k);
             why = e.srv->why;
+        } else if (a == "Attempt") {
+            ok = !e.c->isConnected() && e.srv->attempt(s["r"].toString());
+            why = e.srv->why.isEmpty() ? QStringLiteral("connected") : e.srv->why;
         } else if (a == "Close") {
             if (!peer.isOpen() || !e.c->isConnected()) {
                 ok = false;
